@@ -268,16 +268,16 @@ impl Duration {
         microseconds: u64,
         nanoseconds: u64,
     ) -> Self {
-        Self::compose_f64(
-            sign,
-            days as f64,
-            hours as f64,
-            minutes as f64,
-            seconds as f64,
-            milliseconds as f64,
-            microseconds as f64,
-            nanoseconds as f64,
-        )
+        // The fields are integers, so compose them on integers: a product like 8_000_001 days in nanoseconds
+        // is not representable on a 64-bit float. None of these products can overflow an i128.
+        let total_ns = i128::from(days) * i128::from(NANOSECONDS_PER_DAY)
+            + i128::from(hours) * i128::from(NANOSECONDS_PER_HOUR)
+            + i128::from(minutes) * i128::from(NANOSECONDS_PER_MINUTE)
+            + i128::from(seconds) * i128::from(NANOSECONDS_PER_SECOND)
+            + i128::from(milliseconds) * i128::from(NANOSECONDS_PER_MILLISECOND)
+            + i128::from(microseconds) * i128::from(NANOSECONDS_PER_MICROSECOND)
+            + i128::from(nanoseconds);
+        Self::from_total_nanoseconds(if sign < 0 { -total_ns } else { total_ns })
     }
 
     /// Creates a new duration from its parts. Set the sign to a negative number for the duration to be negative.
